@@ -161,6 +161,10 @@ namespace ip {
 			m_forwarder.reset();
 		}
 
+		// datagrams nobody read belong to the binding that is going away
+		m_incoming_queue.clear();
+		m_queue_size = 0;
+
 		cancel(ec);
 	}
 	catch (std::bad_alloc const&)
